@@ -36,7 +36,7 @@ type vfPliScript struct {
 
 const (
 	vfPliSentinel = uint32(999)
-	vfPliWatchdog = 10 * time.Second
+	vfPliWatchdog = 5 * time.Second
 )
 
 type vfPliGate struct {
@@ -65,18 +65,60 @@ func TestVerifPliExec(t *testing.T) {
 	in := vfLoad(t)
 	out := vfOut(t)
 	defer out.Close()
+	blocked := 0
+	gateChecked := false
 	for _, raw := range in {
 		var sc vfPliScript
 		if err := json.Unmarshal(raw, &sc); err != nil {
 			t.Fatalf("VERIF-INFRA bad script: %v", err)
 		}
+		if sc.Level == "gate" && !gateChecked {
+			gateChecked = true
+			vfPliCheckGate(t)
+		}
 		out.Emit(vfM{"a": "reset", "periodic": sc.Level == "gate"})
-		vfRunPli(t, &sc, out)
+		if !vfRunPli(t, &sc, out) {
+			// a call did not return within the watchdog: logged as a "blocked" event (never accepted by the trace
+			// specification); two such scripts are evidence enough, the rest of the batch is not executed
+			if blocked++; blocked >= 2 {
+				break
+			}
+		}
 	}
 }
 
+// vfPliCheckGate fails as an infrastructure error when the tree under test has no "intervalpli.tick" gate (the add-only commit
+// "verif hooks: tick gate in the intervalpli loop"): without it no tick can be stepped and every script would look blocked.
+func vfPliCheckGate(t *testing.T) {
+	t.Helper()
+	seen := make(chan struct{}, 1)
+	verifhook.SetGate(func(name string, _ any) {
+		if name == "intervalpli.tick" {
+			select {
+			case seen <- struct{}{}:
+			default:
+			}
+		}
+	})
+	defer verifhook.SetGate(nil)
+	ic, err := NewGeneratorInterceptor(GeneratorInterval(100 * time.Microsecond))
+	if err != nil {
+		t.Fatalf("VERIF-INFRA NewGeneratorInterceptor: %v", err)
+	}
+	ic.BindRTCPWriter(interceptor.RTCPWriterFunc(func(pkts []rtcp.Packet, _ interceptor.Attributes) (int, error) {
+		return len(pkts), nil
+	}))
+	select {
+	case <-seen:
+	case <-time.After(vfPliWatchdog):
+		t.Fatalf("VERIF-INFRA the ticker case of the intervalpli loop never reached verifhook.Gate(\"intervalpli.tick\", r): " +
+			"the tree lacks the commit 'verif hooks: tick gate in the intervalpli loop (build tag verif)'")
+	}
+	_ = ic.Close()
+}
+
 //nolint:gocyclo,cyclop,maintidx
-func vfRunPli(t *testing.T, sc *vfPliScript, out *vfWriter) {
+func vfRunPli(t *testing.T, sc *vfPliScript, out *vfWriter) bool {
 	t.Helper()
 	interval := 100 * time.Microsecond
 	if sc.Level != "gate" {
@@ -314,11 +356,13 @@ func vfRunPli(t *testing.T, sc *vfPliScript, out *vfWriter) {
 	if dead {
 		openGate()
 
-		return
+		return false
 	}
 	if !closed {
 		t.Fatalf("VERIF-INFRA script does not end with close")
 	}
 	// Close has returned: the loop goroutine is gone, whatever is recorded now was written after Close
 	out.Emit(vfM{"a": "end", "w": take()})
+
+	return true
 }
